@@ -356,92 +356,29 @@ Section Proofs.
     rewrite (probe_conj _ _ o Hp) in E. pose proof (passes_one_leaf _ _ _ (E q Hq Hs) Hl). congruence.
   Qed.
 
-  Definition has_type (t : string) (c : json) : bool :=
-    match c with JObj kv => is_str (assoc "type" kv) t | _ => false end.
-
-  Definition stale_entry (gen : Z) (t : string) (c : json) : bool :=
-    match c with JObj kv => is_str (assoc "type" kv) t && cond_outdated kv gen | _ => false end.
-
-  (** Per condition: if an entry of the probed type is stale and no earlier entry has that
-      type, the condition probe fails (as outdated, or as malformed if an earlier entry is
-      not a map). *)
-  Lemma cond_loop_stale gen t s pre c post :
-    (forall d, In d pre -> has_type t d = false) -> stale_entry gen t c = true ->
-    cond_loop gen t s (pre ++ c :: post) = Some RCondOutdated \/
-    cond_loop gen t s (pre ++ c :: post) = Some RCondMalformed.
-  Proof.
-    intros Hpre Hc. induction pre as [|d pre IH]; cbn.
-    - destruct c as [| | | | | |kv]; try discriminate. cbn in Hc. apply andb_true_iff in Hc. destruct Hc as [Ht Ho].
-      rewrite Ht, Ho. cbn. now left.
-    - destruct d as [| | | | | |kv]; try (now right).
-      pose proof (Hpre (JObj kv) (or_introl eq_refl)) as Hd. cbn in Hd. rewrite Hd. cbn.
-      apply IH. intros d' Hd'. apply Hpre. now right.
-  Qed.
-
   Definition conditions_of (o : json) : option (list json) :=
     match nested_field o ["status"; "conditions"] with NFound (JArr cs) => Some cs | _ => None end.
 
-  Theorem stale_condition_never_passes_partial qs p q o t s pre c post :
+  Lemma cond_probe_stale o t s cs :
+    conditions_of o = Some cs -> existsb (stale_entry (generation o) t) cs = true ->
+    cond_probe t s o = (false, [RCondOutdated]).
+  Proof.
+    unfold conditions_of, cond_probe. intros Hc Hst.
+    destruct (nested_field o ["status"; "conditions"]) as [[| | | | |cs'|]| |]; try discriminate.
+    injection Hc as ->. now rewrite Hst.
+  Qed.
+
+  (** Per condition, in full: if ANY entry of status.conditions has the probed type and
+      declares an integer observedGeneration other than metadata.generation, a selected object
+      fails. No distinctness of condition types is assumed (pre-scan of condition.go:41-53). *)
+  Theorem stale_condition_never_passes qs p q o t s cs :
     parse qs = inr p -> In q qs -> selects q o = true -> In (LCond t s) (leaves (o_probes q)) ->
-    conditions_of o = Some (pre ++ c :: post) ->
-    (forall d, In d pre -> has_type t d = false) -> stale_entry (generation o) t c = true ->
-    fst (p o) = false.
-  Proof.
-    intros Hp Hq Hs Hl Hc Hpre Hst. apply (leaf_fails_all_fails _ _ _ _ _ Hp Hq Hs Hl).
-    cbn. unfold cond_probe. unfold conditions_of in Hc.
-    destruct (nested_field o ["status"; "conditions"]) as [[| | | | |cs|]| |]; try discriminate.
-    injection Hc as ->. destruct (cond_loop_stale (generation o) t s pre c post Hpre Hst) as [-> | ->]; reflexivity.
-  Qed.
-
-  (** Condition types are pairwise distinct (what the API conventions require). *)
-  Fixpoint types_unique (cs : list json) : bool :=
-    match cs with
-    | [] => true
-    | c :: r =>
-        match c with
-        | JObj kv => match assoc "type" kv with
-                     | Some (JStr t) => negb (existsb (has_type t) r)
-                     | _ => true
-                     end
-        | _ => true
-        end && types_unique r
-    end.
-
-  Lemma is_str_eq v a b : is_str v a = true -> is_str v b = true -> a = b.
-  Proof.
-    destruct v as [[| | | |x| |]|]; cbn; try discriminate. rewrite !String.eqb_eq. congruence.
-  Qed.
-
-  Lemma cond_loop_stale_unique gen t s cs :
-    types_unique cs = true -> existsb (stale_entry gen t) cs = true -> cond_loop gen t s cs <> None.
-  Proof.
-    induction cs as [|c cs IH]; cbn; [discriminate|].
-    intros Hu Hex. apply andb_true_iff in Hu. destruct Hu as [Hc Hu].
-    destruct c as [| | | | | |kv]; try discriminate. cbn in Hex.
-    destruct (is_str (assoc "type" kv) t) eqn:Et; cbn in *.
-    - destruct (cond_outdated kv gen) eqn:Eo; cbn in *; [discriminate|].
-      exfalso. destruct (assoc "type" kv) as [[| | | |x| |]|]; cbn in Et; try discriminate.
-      apply String.eqb_eq in Et. subst x. apply negb_true_iff in Hc.
-      apply existsb_exists in Hex. destruct Hex as (d & Hd & Hst).
-      assert (Hex' : existsb (has_type t) cs = true).
-      { apply existsb_exists. exists d. split; [assumption|]. destruct d; try discriminate. cbn in *.
-        now apply andb_true_iff in Hst. }
-      congruence.
-    - apply IH; assumption.
-  Qed.
-
-  (** With distinct condition types, any stale entry of the probed type makes the probe fail. *)
-  Theorem stale_condition_never_passes_unique qs p q o t s cs :
-    parse qs = inr p -> In q qs -> selects q o = true -> In (LCond t s) (leaves (o_probes q)) ->
-    conditions_of o = Some cs -> types_unique cs = true ->
+    conditions_of o = Some cs ->
     existsb (stale_entry (generation o) t) cs = true ->
     fst (p o) = false.
   Proof.
-    intros Hp Hq Hs Hl Hc Hu Hst. apply (leaf_fails_all_fails _ _ _ _ _ Hp Hq Hs Hl).
-    cbn. unfold cond_probe. unfold conditions_of in Hc.
-    destruct (nested_field o ["status"; "conditions"]) as [[| | | | |cs'|]| |]; try discriminate.
-    injection Hc as ->. pose proof (cond_loop_stale_unique (generation o) t s cs Hu Hst) as H.
-    destruct (cond_loop (generation o) t s cs); [reflexivity|congruence].
+    intros Hp Hq Hs Hl Hc Hst. apply (leaf_fails_all_fails _ _ _ _ _ Hp Hq Hs Hl).
+    cbn. now rewrite (cond_probe_stale o t s cs Hc Hst).
   Qed.
 
   (** ** fieldsEqual *)
@@ -550,12 +487,13 @@ Section Proofs.
   Proof. intros H. unfold parse. destruct (parse_groups_ok qs 0%N H) as [gs ->]. now eexists. Qed.
 End Proofs.
 
-(** ** The clause that fails: "a stale per-condition observedGeneration never passes" read as
-    "any entry of the probed type". With two entries of the same type the first one decides
-    (condition.go:42-64 returns inside the loop), so a later stale entry is not seen. *)
-Definition dup_witness_probes : list osp :=
-  [{| o_probes := [{| p_cond := Some {| c_type := "Available"; c_status := "True" |}; p_fe := None; p_cel := None |}];
-      o_sel := {| s_kind := None; s_labels := None |} |}].
+(** ** History: before fix 9b2e4f3 the condition probe had no pre-scan ([condition_probe_v0]):
+    with two entries of the same type the first one decided, so a later stale entry was not
+    seen and the clause "a stale per-condition observedGeneration never passes" was false. *)
+Definition dup_witness_q : osp :=
+  {| o_probes := [{| p_cond := Some {| c_type := "Available"; c_status := "True" |}; p_fe := None; p_cel := None |}];
+     o_sel := {| s_kind := None; s_labels := None |} |}.
+Definition dup_witness_probes : list osp := [dup_witness_q].
 
 Definition dup_witness_object : json :=
   JObj [("apiVersion", JStr "v1"); ("kind", JStr "ConfigMap");
@@ -564,17 +502,18 @@ Definition dup_witness_object : json :=
            JObj [("type", JStr "Available"); ("status", JStr "True"); ("observedGeneration", JNum 2)];
            JObj [("type", JStr "Available"); ("status", JStr "True"); ("observedGeneration", JNum 1)]])])].
 
-Theorem stale_condition_any_entry_refuted :
-  exists (cel_compile : N -> cel_class) (cel_eval : N -> json -> cel_outcome) qs p q o t s cs,
-    parse cel_compile cel_eval qs = inr p /\ In q qs /\ selects q o = true /\
-    In (LCond t s) (leaves (o_probes q)) /\ conditions_of o = Some cs /\
-    existsb (stale_entry (generation o) t) cs = true /\
-    p o = (true, []).
-Proof.
-  exists (fun _ => CelOk), (fun _ _ => CelTrue), dup_witness_probes, (p_and [p_og (p_and [cond_probe "Available" "True"])]).
-  eexists _, dup_witness_object, "Available", "True", _.
-  repeat split; try reflexivity; cbn; auto; now left.
-Qed.
+Theorem v0_stale_condition_any_entry_refuted :
+  exists o t s cs,
+    conditions_of o = Some cs /\ existsb (stale_entry (generation o) t) cs = true /\
+    condition_probe_v0 t s o = (true, []).
+Proof. exists dup_witness_object, "Available", "True". eexists. repeat split; reflexivity. Qed.
+
+(** The same witness on the current model: the parsed prober fails it as outdated. *)
+Lemma dup_witness_now_fails :
+  exists p, parse (fun _ => CelOk) (fun _ _ => CelTrue) dup_witness_probes = inr p
+            /\ selects dup_witness_q dup_witness_object = true
+            /\ p dup_witness_object = (false, [RCondOutdated]).
+Proof. eexists. repeat split; reflexivity. Qed.
 
 (** Observation (not a clause of the property): a non-integer observedGeneration (float,
     string) is not compared at all, NestedInt64 returns an error for it. *)
